@@ -95,7 +95,7 @@ func (p rigPool) closeAll() {
 func (g *rig) readLoop(s *c22Stream, cuts []int, capN int) (frames [][]byte, class string, panicMsg string) {
 	g.pool.Config.MaxIncomingMessageLength = s.Max
 	g.sc.reset(s.Bytes, cuts)
-	g.conn.Buffer.Reset()
+	g.conn.Buffer = &bytes.Buffer{} // a fresh buffer per execution: capacity grown by an earlier stream must not leak into this one (it decides when the buffer recycles its storage)
 	var err error
 	if p, msg := engine.Catch(func() { frames, err = gnet.VerifReadLoop(g.pool, g.conn, capN) }); p {
 		return nil, "panic", msg
